@@ -13,8 +13,9 @@ callback alternates, the consumer holds each member once, and holds exactly the 
 contributed by the endpoints whose effective labels match the set's selector (with suppression:
 minus CIDRs strictly inside another contributed CIDR).  `refcount_eq_card`: reference counts
 count contributions.  `suppressed_cover_eq_spec`: antichain + same covered addresses.
-Hypothesis `Op.ok`: CIDRs canonical (true of every `ip.CIDRFrom…`), endpoint profile-id lists
-duplicate-free (otherwise the real index panics: `dup_profile_id_panics`).
+Hypothesis `Op.ok`: CIDRs canonical (true of every `ip.CIDRFrom…`).  Profile-id lists may repeat ids
+(`UpdateEndpointOrSet` lists each parent once since /repo c40ff03: `dup_profile_id_no_panic`,
+`repeated_profile_ids_same_as_deduplicated`).
 
 The emission-layer theorems (`members_once_and_alternate` … `suppressor_trie_eq_refcounted`,
 `refcount_transitions_keep_invariants_partial`) are the layer the full statement is built on.
@@ -431,12 +432,10 @@ example : ∀ op ∈ exOps, op.ok := by
   simp only [exOps, List.mem_cons, List.not_mem_nil, or_false] at hop
   rcases hop with rfl | rfl | rfl | rfl | rfl
   · trivial
-  · refine ⟨?_, by decide⟩
-    intro c hc
+  · intro c hc
     simp only [List.mem_cons, List.not_mem_nil, or_false] at hc
     rcases hc with rfl | rfl <;> decide
-  · refine ⟨?_, by decide⟩
-    intro c hc
+  · intro c hc
     simp only [List.mem_cons, List.not_mem_nil, or_false] at hc
     rcases hc with rfl <;> decide
   · trivial
@@ -447,21 +446,52 @@ while the network set existed, its removal re-exposed it; the refcount of 2 drop
 example : replay (run (fun _ _ => true) (Idx.new Nat true) exOps).out =
     some [("s", .cidr ⟨false, 167772161, 32⟩)] := by decide
 
-/-! ### a history on which the real index panics -/
+/-! ### repeated profile ids (regression for the defect fixed in /repo c40ff03) -/
 
-/-- **Finding.** An endpoint that lists the same profile id twice makes `DeleteEndpoint` (and any
-`UpdateEndpointOrSet` that drops that profile) panic with "discard of unknown ID" when no other
-endpoint uses the profile: the clean-up loop discards the endpoint id once per occurrence.
-Reproduced on the real index by the harness (oracle signature `panic-dup-profile-id`). -/
-theorem dup_profile_id_panics :
+/-- Before /repo c40ff03 this history made the real index panic ("discard of unknown ID": the
+clean-up loop discarded the endpoint from its parent once per occurrence of the profile id).  Now a
+repeated profile id is listed once (`dedupParents`): no panic, the stored parents are `["p1"]`, and
+deleting the endpoint leaves the index empty. -/
+theorem dup_profile_id_no_panic :
     (run (fun (_ : Nat) _ => true) (Idx.new Nat false)
-      [.updateEndpoint "w1" [] [] [] ["p1", "p1"], .deleteEndpoint "w1"]).panicked = true := by
+      [.updateEndpoint "w1" [] [] [] ["p1", "p1"]]).eps.map (fun p => (p.1, p.2.parents)) = [("w1", ["p1"])] ∧
+    (run (fun (_ : Nat) _ => true) (Idx.new Nat false)
+      [.updateEndpoint "w1" [] [] [] ["p1", "p1"], .deleteEndpoint "w1"]).panicked = false ∧
+    (run (fun (_ : Nat) _ => true) (Idx.new Nat false)
+      [.updateEndpoint "w1" [] [] [] ["p1", "p1"], .deleteEndpoint "w1"]).eps = [] := by
   decide
 
-/-- With duplicate-free profile lists the same history does not panic. -/
-example :
-    (run (fun (_ : Nat) _ => true) (Idx.new Nat false)
-      [.updateEndpoint "w1" [] [] [] ["p1", "p2"], .deleteEndpoint "w1"]).panicked = false := by
-  decide
+/-- In general: a profile-id list with repeats behaves exactly like its de-duplicated version. -/
+theorem repeated_profile_ids_same_as_deduplicated (matchSel : Sel → Labels → Bool) (id : String) (labels : Labels)
+    (nets : List Cidr) (ports : List Port) (parents : List String) (st : Idx Sel) :
+    updateEndpoint matchSel id labels nets ports parents st =
+      updateEndpoint matchSel id labels nets ports (dedupParents parents) st ∧
+    (dedupParents parents).Nodup ∧ ∀ p, p ∈ dedupParents parents ↔ p ∈ parents := by
+  refine ⟨?_, dedupParents_nodup parents, mem_dedupParents parents⟩
+  unfold updateEndpoint
+  congr 1
+  -- de-duplicating twice changes nothing
+  have : ∀ l : List String, l.Nodup → dedupParents l = l := by
+    intro l
+    unfold dedupParents
+    have : ∀ (l acc : List String), (acc ++ l).Nodup →
+        l.foldl (fun acc p => if p ∈ acc then acc else acc ++ [p]) acc = acc ++ l := by
+      intro l
+      induction l with
+      | nil => intro acc _; simp
+      | cons a l ih =>
+        intro acc h
+        rw [List.foldl_cons]
+        have ha : a ∉ acc := by
+          intro hm
+          rw [List.nodup_append] at h
+          exact h.2.2 a hm a (List.mem_cons_self ..) rfl
+        simp only [ha, if_false]
+        rw [ih (acc ++ [a]) (by simpa [List.append_assoc] using h)]
+        simp [List.append_assoc]
+    intro h
+    have := this l [] (by simpa using h)
+    simpa using this
+  exact (this _ (dedupParents_nodup parents)).symm
 
 end CalicoVerif.C04
